@@ -31,7 +31,7 @@ TAttackPump == /\ IsEv(l, "AttackPump")
                   /\ (e.signals <= 1 =>
                         /\ e.err = ""
                         /\ e.encoded = [i \in 1..e.started |-> i - 1])
-                  /\ (e.signals = 0 => e.started = e.hits)
+                  /\ (e.signals = 0 /\ e.duration_ms = 0 => e.started = e.hits)      \* (with a duration the attack may end before the pacer does)
                /\ l' = l + 1
 TNext == TReset \/ TPump \/ TAttackPump
 TSpec == TInit /\ [][TNext]_<<l>>
